@@ -7,6 +7,7 @@ import vlib
 
 ALL16 = "{" + ", ".join(str(i) for i in range(16)) + "}"
 BOUNDARY = "{0, 1, 32767, 32768, 32769, 65534, 65535}"
+BOUNDARY11 = "{0, 1, 2, 32766, 32767, 32768, 32769, 32770, 65533, 65534, 65535}"
 RTP_KINDS = '{"flip_hdr", "flip_csrc_ext", "flip_payload", "flip_tag", "truncate", "extend", "reseq", "wrongkey", "newssrc"}'
 # a forgery is presented k times in a row (failure counters / rate-limited paths): each must be rejected, nothing may move
 REPS = "{1, 4, 5, 101}"
@@ -15,7 +16,7 @@ RTCP_KINDS = '{"flip_hdr", "flip_payload", "flip_tag", "flip_ebit", "truncate", 
 BASE = dict(Ssrcs="{1}", ForgedSsrcs="{}", SeqBits=4, SeqAlpha=ALL16, MaxRoc=2, StartIdx="{15, 24}",
             StartFresh="TRUE", StepsFwd="{}", StepsBack="{}", MaxLen=4, MaxSent=3, Watermark=2,
             WithRtcp="FALSE", WithTick="FALSE", RtpForgeKinds="{}", RtcpForgeKinds="{}", ForgeOffsets="{}",
-            ForgeReps="{1}")
+            ForgeReps="{1}", RtcpTop=1000, Embed='"low"')
 
 
 def conf(**kw):
@@ -31,8 +32,15 @@ CONFIGS = {
         # every sender step inside the window, every delivery order, ROC 0..2, scaled sequence space
         ("roc/bits4", conf(StartIdx="{15, 24, 40}", MaxLen=5, MaxSent=4)),
         # exact thresholds: real 16-bit sequence numbers from the boundary alphabet
-        ("boundary/bits16", conf(SeqBits=16, SeqAlpha=BOUNDARY, StartIdx="{1, 32767, 32768, 65535, 98304, 131071}",
-                                 MaxLen=5, MaxSent=5)),
+        ("boundary/bits16", conf(SeqBits=16, SeqAlpha=BOUNDARY11, MaxRoc=3,
+                                 StartIdx="{1, 32767, 32768, 65535, 98304, 131071, 196607, 229376}", MaxLen=4, MaxSent=4)),
+        # 11 boundary values, 3 wraps, rollover counters at the very top of the 32-bit space (model ROC 0..3 <-> real
+        # 2^32-4 .. 2^32-1, positions installed through the H4 state-setting hook; no reference there)
+        ("boundary/highroc", conf(SeqBits=16, SeqAlpha=BOUNDARY11, MaxRoc=3, StartIdx="{65535, 98304, 196607, 262143}",
+                                  MaxLen=4, MaxSent=4, Embed='"highroc"')),
+        # SRTCP index at the top of its 31-bit space: index 2^31-1 is the last one, then the key is exhausted
+        ("rtcp/top", conf(Ssrcs="{1, 2}", SeqAlpha="{15, 0}", StartIdx="{15}", StartFresh="FALSE", StepsFwd="{1}",
+                          StepsBack="{}", WithRtcp="TRUE", RtcpTop=2, MaxLen=6, MaxSent=8, Embed='"rtcptop"')),
         # several SSRCs interleaved, SRTCP
         ("multi/rtcp", conf(Ssrcs="{1, 2, 3}", SeqAlpha="{0, 1, 14, 15}", StartIdx="{15}", StepsFwd="{1, 2}",
                             StepsBack="{1}", WithRtcp="TRUE", MaxLen=4, MaxSent=4)),
@@ -43,8 +51,12 @@ CONFIGS = {
     ],
     ("C04", "thorough"): [
         ("roc/bits4", conf(StartIdx="{15, 24, 40}", MaxLen=6, MaxSent=5)),
-        ("boundary/bits16", conf(SeqBits=16, SeqAlpha=BOUNDARY, StartIdx="{1, 32767, 32768, 65535, 98304, 131071}",
-                                 MaxLen=6, MaxSent=5)),
+        ("boundary/bits16", conf(SeqBits=16, SeqAlpha=BOUNDARY11, MaxRoc=3,
+                                 StartIdx="{1, 32767, 32768, 65535, 98304, 131071, 196607, 229376}", MaxLen=5, MaxSent=5)),
+        ("boundary/highroc", conf(SeqBits=16, SeqAlpha=BOUNDARY11, MaxRoc=3, StartIdx="{65535, 98304, 196607, 262143}",
+                                  MaxLen=5, MaxSent=5, Embed='"highroc"')),
+        ("rtcp/top", conf(Ssrcs="{1, 2}", SeqAlpha="{15, 0}", StartIdx="{15}", StartFresh="FALSE", StepsFwd="{1}",
+                          StepsBack="{}", WithRtcp="TRUE", RtcpTop=2, MaxLen=7, MaxSent=9, Embed='"rtcptop"')),
         ("multi/rtcp", conf(Ssrcs="{1, 2, 3}", SeqAlpha="{0, 1, 14, 15}", StartIdx="{15}", StepsFwd="{1, 2}",
                             StepsBack="{1}", WithRtcp="TRUE", MaxLen=5, MaxSent=5)),
         ("idle/churn", conf(Ssrcs="{1, 2, 3}", SeqAlpha="{15, 0, 1, 2}", StartIdx="{16}", StartFresh="FALSE", StepsFwd="{1}",
@@ -308,7 +320,9 @@ SELF_DEV = {
     "RtcpIndexBeforeAuth": (conf(StepsFwd="{1}", WithRtcp="TRUE", RtcpForgeKinds='{"reindex", "wrongkey"}', MaxLen=3),
                             ("ForgeUnchanged",)),
     "TableBeforeAuth\", \"EvictLosesState": (CONFIGS[("C05", "quick")][2][1], ("ForgeUnchanged", "AcceptanceStable")),
-    "EvictLosesState": (CONFIGS[("C04", "quick")][3][1], ("NoLossByEviction", "SenderAgreement", "IndexAgreement")),
+    "RtcpIndexOverflow": (conf(Ssrcs="{1}", SeqAlpha="{15, 0}", StartIdx="{15}", StartFresh="FALSE", StepsFwd="{1}", WithRtcp="TRUE",
+                               RtcpTop=2, MaxLen=5, MaxSent=6), ("IndexAgreement",)),
+    "EvictLosesState": ([c for l, c in CONFIGS[("C04", "quick")] if l == "idle/churn"][0], ("NoLossByEviction", "SenderAgreement", "IndexAgreement")),
 }
 
 
@@ -320,7 +334,7 @@ def selftest(pid):
         cfg = os.path.join(vlib.SPEC, "MC_Srtp_selftest_%s.gen.cfg" % dev.replace('", "', "_"))
         # only the rules of the property the deviation is about are switched on (Props), so the reported
         # violation is one of that listed property, not of an EXT rule
-        props = '{"C04"}' if dev in ("EstimateSlack", "EvictLosesState") else '{"C05"}'
+        props = '{"C04"}' if dev in ("EstimateSlack", "EvictLosesState", "RtcpIndexOverflow") else '{"C05"}'
         write_cfg(cfg, consts, emit=False, deviations='{"%s"}' % dev, props=props)
         res = vlib.tlc("MC_Srtp", os.path.basename(cfg), timeout=900, workers=4, tag="srtp_self_" + dev.replace('", "', "_"), heap="3g")
         os.remove(cfg)
